@@ -1166,6 +1166,12 @@ func (s *appStream) realPrepare(r *tr.Rng, ptxs []*pendingTx, script *appsim.Blo
 			}
 		}()
 		txs, err := sim.Prepare(sim.ProposerAddr(0), nil)
+		for try := 0; try < 2 && err != nil && isEngineTimeout(err); try++ {
+			// the 1.2 s the handler gives the execution client were missed on a loaded machine: not the handler's doing
+			sim.EngineBarrier()
+			sim.Engine.SetNext(script)
+			txs, err = sim.Prepare(sim.ProposerAddr(0), nil)
+		}
 		done <- res{txs, err}
 	}()
 	po := tr.NewOp(fmt.Sprintf("prepare/offered=%d/admitted=%d/expiring=%d/flood=%d", offered, admitted, expiring, flood), "a.prepare", "height", height, "offered", offered,
